@@ -96,7 +96,8 @@ type Ctx struct {
 	distinct    map[uint64]struct{}
 	outcomes    map[string]int64
 	samples     []any
-	sampleSeen  int64
+	famSeen     map[string]int64
+	famSamples  map[string][]any
 	rule        []string
 	assumptions []string
 	notExh      []string
@@ -246,11 +247,14 @@ func (c *Ctx) record(fam string, w any, r Result) {
 	if r.Outcome != "" {
 		c.outcomes[fam+":"+r.Outcome]++
 	}
-	// deterministic sample selection driven by the seed: keep the case whose
-	// index hashes lowest, per family, up to 4 per family.
-	c.sampleSeen++
-	if len(c.samples) < 12 && (c.sampleSeen < 3 || hashKey(fmt.Sprint(c.Seed, c.sampleSeen))%uint64(1+c.sampleSeen/4) == 0) {
-		c.samples = append(c.samples, map[string]any{"family": fam, "witness": w, "outcome": r.Outcome})
+	// per-family reservoir of 3 samples, driven by VERIF_SEED (enumeration order never depends on it)
+	c.famSeen[fam]++
+	n := c.famSeen[fam]
+	smp := map[string]any{"family": fam, "witness": w, "outcome": r.Outcome}
+	if int64(len(c.famSamples[fam])) < 3 {
+		c.famSamples[fam] = append(c.famSamples[fam], smp)
+	} else if j := hashKey(fmt.Sprint(c.Seed, fam, n)) % uint64(n); j < 3 {
+		c.famSamples[fam][j] = smp
 	}
 	if r.Class != "" {
 		c.violationsTotal++
@@ -312,6 +316,7 @@ func Main(id, level string, run func(c *Ctx)) {
 	seed, _ := strconv.ParseInt(os.Getenv("VERIF_SEED"), 10, 64)
 	c := &Ctx{ID: id, Level: level, Tier: *tier, Seed: seed, Replay: *replay, Shard: *shard, Shards: *shards,
 		start: time.Now(), distinct: map[uint64]struct{}{}, outcomes: map[string]int64{}, extra: map[string]any{},
+		famSeen: map[string]int64{}, famSamples: map[string][]any{},
 		knownHit: map[string]string{}, families: map[string]func(json.RawMessage) Result{}}
 	budget := 150 * time.Second
 	if c.Thorough() {
@@ -407,6 +412,12 @@ func (c *Ctx) finish() int {
 		cov["outcomes"] = c.outcomes
 	}
 	cov["rule"] = strings.Join(c.rule, " ")
+	for _, f := range c.famOrder {
+		c.samples = append(c.samples, c.famSamples[f]...)
+	}
+	if len(c.samples) > 30 {
+		c.samples = c.samples[:30]
+	}
 	if len(c.samples) == 0 {
 		c.samples = append(c.samples, "no cases evaluated")
 	}
@@ -419,6 +430,9 @@ func (c *Ctx) finish() int {
 		cov["states"] = c.states
 		cov["transitions"] = c.transitions
 		cov["traces_validated_against_impl"] = c.traces
+	}
+	if kh == nil {
+		kh = []string{}
 	}
 	cov["known_findings_hit"] = kh
 	ev := map[string]any{
@@ -440,8 +454,9 @@ func (c *Ctx) finish() int {
 		fmt.Printf("SHARD-EVIDENCE %s\n", mustJSON(ev))
 		return code
 	}
-	_ = os.MkdirAll(filepath.Join(VerifDir, "evidence"), 0o755)
-	if err := os.WriteFile(filepath.Join(VerifDir, "evidence", c.ID+".json"), b, 0o644); err != nil {
+	evDir := envOr("VERIF_EVIDENCE_DIR", filepath.Join(VerifDir, "evidence"))
+	_ = os.MkdirAll(evDir, 0o755)
+	if err := os.WriteFile(filepath.Join(evDir, c.ID+".json"), b, 0o644); err != nil {
 		fmt.Fprintln(os.Stderr, "kit: cannot write evidence:", err)
 		return 2
 	}
